@@ -109,8 +109,18 @@ func (pr *prover) lin(e ast.Expr) (lexpr, bool) {
 		}
 		return lexpr{}, false
 	case *ast.CallExpr:
-		if id, ok := x.Fun.(*ast.Ident); ok && id.Name == "len" && len(x.Args) == 1 {
-			return lexpr{T: map[string]int{"len(" + pr.term(x.Args[0]) + ")": 1}}, true
+		if id, ok := x.Fun.(*ast.Ident); ok && (id.Name == "len" || id.Name == "cap") && len(x.Args) == 1 {
+			return lexpr{T: map[string]int{id.Name + "(" + pr.term(x.Args[0]) + ")": 1}}, true
+		}
+		// a conversion between integer types of a linear expression (int(x), ID(n))
+		if tv, ok := pr.info.Types[x.Fun]; ok && tv.IsType() && len(x.Args) == 1 {
+			if b, ok := tv.Type.Underlying().(*types.Basic); ok && b.Info()&types.IsInteger != 0 {
+				if at := pr.info.Types[x.Args[0]].Type; at != nil {
+					if ab, ok := at.Underlying().(*types.Basic); ok && ab.Info()&types.IsInteger != 0 && !narrower(b, ab) {
+						return pr.lin(x.Args[0])
+					}
+				}
+			}
 		}
 		return lexpr{}, false
 	case *ast.Ident, *ast.SelectorExpr:
@@ -121,6 +131,28 @@ func (pr *prover) lin(e ast.Expr) (lexpr, bool) {
 		}
 	}
 	return lexpr{}, false
+}
+
+// narrower: converting from `from` to `to` can change the value (fewer bits, or signed → unsigned).
+func narrower(to, from *types.Basic) bool {
+	size := func(b *types.Basic) int {
+		switch b.Kind() {
+		case types.Int8, types.Uint8:
+			return 8
+		case types.Int16, types.Uint16:
+			return 16
+		case types.Int32, types.Uint32:
+			return 32
+		}
+		return 64
+	}
+	if size(to) < size(from) {
+		return true
+	}
+	if to.Info()&types.IsUnsigned != 0 && from.Info()&types.IsUnsigned == 0 {
+		return true
+	}
+	return false
 }
 
 // factsOf: what holds when cond == truth (conjunctions only; anything else yields nothing).
